@@ -215,6 +215,292 @@ theorem mem_is_spec (hist : List Mutation) :
       simp only [if_true]
       cases hh : handle s.mem mu <;> simp
 
+/-! ### Lease calls between the mutations (volatile by design, never logged)
+
+`Acquire` / `Renew` / `Release` change the lease column of the live memory only, so the strong invariant
+`Inv` (replay = live memory) is replaced by `InvV`: replaying the log reproduces the live memory *up to
+the lease column*. This survives every mutation because no logged mutation reads a lease —
+`handle_dataEq`; in particular `RemoveKeys` drops an entry whatever its lease is. -/
+
+theorem Mem.get_set (m : Mem) (k k' : Bytes) (e : Entry) :
+    (m.set k e).get k' = if k' = k then e else m.get k' := by
+  unfold Mem.set Mem.get
+  by_cases hany : m.any (fun p => decide (p.1 = k)) = true
+  · rw [if_pos hany, List.find?_map]
+    by_cases h : k' = k
+    · subst h
+      obtain ⟨q, hq, hqk⟩ := List.any_eq_true.1 hany
+      have hf : (fun p : Bytes × Entry => decide (p.1 = k')) ∘ (fun p => if p.1 = k' then (k', e) else p)
+          = fun p => decide (p.1 = k') := by
+        funext p; by_cases hp : p.1 = k' <;> simp [hp]
+      rw [hf]
+      cases hfind : m.find? (fun p => decide (p.1 = k')) with
+      | none =>
+        have := List.find?_eq_none.1 hfind q hq
+        exact absurd hqk this
+      | some r =>
+        have hr := List.find?_some hfind
+        simp at hr
+        simp [hr]
+    · have hf : (fun p : Bytes × Entry => decide (p.1 = k')) ∘ (fun p => if p.1 = k then (k, e) else p)
+          = fun p => decide (p.1 = k') := by
+        funext p
+        by_cases hp : p.1 = k
+        · have h1 : ¬ k = k' := fun e => h e.symm
+          have h2 : ¬ p.1 = k' := fun e => h (e.symm.trans hp)
+          simp [hp, h1]
+        · simp [hp]
+      rw [hf]
+      cases hfind : m.find? (fun p => decide (p.1 = k')) with
+      | none => simp [h]
+      | some r =>
+        have hr := List.find?_some hfind
+        simp at hr
+        have : ¬ r.1 = k := fun e => h (hr.symm.trans e)
+        simp [h, this]
+  · rw [if_neg hany, List.find?_append]
+    by_cases h : k' = k
+    · subst h
+      have : m.find? (fun p => decide (p.1 = k')) = none := by
+        apply List.find?_eq_none.2
+        intro q hq hqk
+        exact hany (List.any_eq_true.2 ⟨q, hq, hqk⟩)
+      simp [this]
+    · have h1 : ¬ k = k' := fun e => h e.symm
+      simp [h, h1]
+
+theorem Mem.get_erase (m : Mem) (k k' : Bytes) :
+    (m.erase k).get k' = if k' = k then {} else m.get k' := by
+  unfold Mem.erase Mem.get
+  by_cases h : k' = k
+  · subst h
+    have : (m.filter (fun p => decide (p.1 ≠ k'))).find? (fun p => decide (p.1 = k')) = none := by
+      apply List.find?_eq_none.2
+      intro q hq
+      have := (List.mem_filter.1 hq).2
+      simpa using this
+    rw [this]; simp
+  · rw [List.find?_filter]
+    have hf : (fun a : Bytes × Entry => decide (decide (a.1 ≠ k) = true ∧ decide (a.1 = k') = true)) = fun a => decide (a.1 = k') := by
+      funext a
+      by_cases ha : a.1 = k'
+      · have : ¬ a.1 = k := fun e => h (ha.symm.trans e)
+        simp [ha, h]
+      · simp [ha]
+    rw [hf]; simp [h]
+
+/-- what the property statement observes of an entry: simple value and prefix children -/
+def Entry.data (e : Entry) : Bytes × List Bytes := (e.val, e.children)
+
+/-- two memories with the same simple values and prefix children for every key -/
+def DataEq (a b : Mem) : Prop := ∀ k, (a.get k).data = (b.get k).data
+
+theorem DataEq.refl (a : Mem) : DataEq a a := fun _ => rfl
+theorem DataEq.symm {a b : Mem} (h : DataEq a b) : DataEq b a := fun k => (h k).symm
+theorem DataEq.trans {a b c : Mem} (h : DataEq a b) (h' : DataEq b c) : DataEq a c :=
+  fun k => (h k).trans (h' k)
+
+theorem DataEq.val {a b : Mem} (h : DataEq a b) (k : Bytes) : (a.get k).val = (b.get k).val :=
+  congrArg Prod.fst (h k)
+theorem DataEq.children {a b : Mem} (h : DataEq a b) (k : Bytes) : (a.get k).children = (b.get k).children :=
+  congrArg Prod.snd (h k)
+
+/-- writing entries with equal data at the same key keeps memories data-equal -/
+theorem DataEq.set {a b : Mem} (h : DataEq a b) (k : Bytes) (e e' : Entry) (he : e.data = e'.data) :
+    DataEq (a.set k e) (b.set k e') := by
+  intro k'
+  rw [Mem.get_set, Mem.get_set]
+  by_cases hk : k' = k
+  · simp [hk, he]
+  · simp [hk, h k']
+
+theorem DataEq.erase {a b : Mem} (h : DataEq a b) (k : Bytes) : DataEq (a.erase k) (b.erase k) := by
+  intro k'
+  rw [Mem.get_erase, Mem.get_erase]
+  by_cases hk : k' = k
+  · simp [hk]
+  · simp [hk, h k']
+
+theorem DataEq.eraseAll {a b : Mem} (h : DataEq a b) (ks : List Bytes) :
+    DataEq (ks.foldl Mem.erase a) (ks.foldl Mem.erase b) := by
+  induction ks generalizing a b with
+  | nil => exact h
+  | cons k ks ih => exact ih (h.erase k)
+
+theorem DataEq.importOne {a b : Mem} (h : DataEq a b) (k : Bytes) (t : Transfer) :
+    DataEq (importOne a k t) (importOne b k t) := by
+  unfold Specter.Aof.importOne
+  apply h.set
+  simp [Entry.data, h.children k]
+
+/-- outcome of a mutation on two memories: same error, or data-equal results -/
+def ResEq : Except Err Mem → Except Err Mem → Prop
+  | .ok a, .ok b => DataEq a b
+  | .error e, .error e' => e = e'
+  | _, _ => False
+
+theorem importAll_dataEq {a b : Mem} (h : DataEq a b) (ks : List Bytes) (ts : List Transfer) :
+    ResEq (importAll a ks ts) (importAll b ks ts) := by
+  induction ks generalizing a b ts with
+  | nil => simpa [importAll, ResEq] using h
+  | cons k ks ih =>
+    cases ts with
+    | nil => simp [importAll, ResEq]
+    | cons t ts => simp only [importAll]; exact ih (h.importOne k t) ts
+
+theorem handle_put (m : Mem) (mu : Mutation) (h : mu.type = tPut) :
+    handle m mu = .ok (m.set mu.key { m.get mu.key with val := mu.value }) := by simp [handle, h]
+theorem handle_delete (m : Mem) (mu : Mutation) (h : mu.type = tDelete) :
+    handle m mu = .ok (m.set mu.key { m.get mu.key with val := [] }) := by simp [handle, h, tags]
+theorem handle_append (m : Mem) (mu : Mutation) (h : mu.type = tAppend) :
+    handle m mu = if mu.value ∈ (m.get mu.key).children then .error .conflict
+      else .ok (m.set mu.key { m.get mu.key with children := (m.get mu.key).children ++ [mu.value] }) := by
+  simp [handle, h, tags]
+theorem handle_remove (m : Mem) (mu : Mutation) (h : mu.type = tRemove) :
+    handle m mu = .ok (m.set mu.key { m.get mu.key with children := (m.get mu.key).children.filter (· ≠ mu.value) }) := by
+  simp [handle, h, tags]
+theorem handle_import (m : Mem) (mu : Mutation) (h : mu.type = tImport) :
+    handle m mu = importAll m mu.keys mu.values := by simp [handle, h, tags]
+theorem handle_removeKeys (m : Mem) (mu : Mutation) (h : mu.type = tRemoveKeys) :
+    handle m mu = .ok (mu.keys.foldl Mem.erase m) := by simp [handle, h, tags]
+theorem handle_other (m : Mem) (mu : Mutation) (h1 : mu.type ≠ tPut) (h2 : mu.type ≠ tDelete) (h3 : mu.type ≠ tAppend)
+    (h4 : mu.type ≠ tRemove) (h5 : mu.type ≠ tImport) (h6 : mu.type ≠ tRemoveKeys) : handle m mu = .ok m := by
+  simp [handle, h1, h2, h3, h4, h5, h6]
+
+/-- **No logged mutation reads the lease column**: on memories that agree on values and children
+(whatever their leases are) `handleMutation` fails with the same error or produces memories that
+again agree on values and children. In particular `RemoveKeys` drops an entry whatever its lease is. -/
+theorem handle_dataEq {a b : Mem} (h : DataEq a b) (mu : Mutation) : ResEq (handle a mu) (handle b mu) := by
+  by_cases h1 : mu.type = tPut
+  · rw [handle_put _ _ h1, handle_put _ _ h1]
+    exact h.set _ _ _ (by simp [Entry.data, h.children mu.key])
+  by_cases h2 : mu.type = tDelete
+  · rw [handle_delete _ _ h2, handle_delete _ _ h2]
+    exact h.set _ _ _ (by simp [Entry.data, h.children mu.key])
+  by_cases h3 : mu.type = tAppend
+  · rw [handle_append _ _ h3, handle_append _ _ h3, h.children mu.key]
+    by_cases hc : mu.value ∈ (b.get mu.key).children
+    · simp [hc, ResEq]
+    · simp only [hc, if_false]
+      exact h.set _ _ _ (by simp [Entry.data, h.val mu.key])
+  by_cases h4 : mu.type = tRemove
+  · rw [handle_remove _ _ h4, handle_remove _ _ h4]
+    exact h.set _ _ _ (by simp [Entry.data, h.val mu.key, h.children mu.key])
+  by_cases h5 : mu.type = tImport
+  · rw [handle_import _ _ h5, handle_import _ _ h5]; exact importAll_dataEq h _ _
+  by_cases h6 : mu.type = tRemoveKeys
+  · rw [handle_removeKeys _ _ h6, handle_removeKeys _ _ h6]; exact h.eraseAll _
+  · rw [handle_other _ _ h1 h2 h3 h4 h5 h6, handle_other _ _ h1 h2 h3 h4 h5 h6]; exact h
+
+theorem check_dataEq {a b : Mem} (h : DataEq a b) (mu : Mutation) : check a mu = check b mu := by
+  unfold check; rw [h.children mu.key]
+
+/-- a lease call changes neither simple values nor prefix children -/
+theorem volatile_preserves_data (m : Mem) (op : VOp) : DataEq (volatile m op).1 m := by
+  have hset : ∀ k l, DataEq (m.set k { m.get k with lease := l }) m := by
+    intro k l k'
+    rw [Mem.get_set]
+    by_cases hk : k' = k
+    · simp [hk, Entry.data]
+    · simp [hk]
+  cases op with
+  | acquire k ttlOk =>
+    simp only [volatile]
+    split
+    · exact DataEq.refl m
+    · split
+      · exact DataEq.refl m
+      · exact hset _ _
+  | renew k ttlOk prev =>
+    simp only [volatile]
+    repeat' split
+    all_goals first | exact DataEq.refl m | exact hset _ _
+  | release k tok =>
+    simp only [volatile]
+    split
+    · exact hset _ _
+    · exact DataEq.refl m
+
+/-- The restart invariant in the presence of lease calls: replaying the log reproduces the live memory
+up to the lease column, and the next WAL index is `LastIndex + 1`. -/
+def InvV (s : Store) : Prop :=
+  ∃ m, replay s.log = .ok m ∧ DataEq m s.mem ∧ s.counter = s.log.length + 1
+
+theorem invV_of_inv (s : Store) (h : Inv s) : InvV s := ⟨s.mem, h.1, DataEq.refl _, h.2⟩
+
+theorem submit_preserves_invV (pre : Bool) (s : Store) (mu : Mutation) (h : InvV s) :
+    InvV (submitG pre s mu).1 := by
+  obtain ⟨m, hr, hd, hc⟩ := h
+  unfold submitG
+  cases hchk : (if pre = true then check s.mem mu else none) with
+  | some e => exact ⟨m, hr, hd, hc⟩
+  | none =>
+    simp only
+    have hres := handle_dataEq hd mu
+    cases hh : handle s.mem mu with
+    | ok m' =>
+      rw [hh] at hres
+      cases hm : handle m mu with
+      | error e => rw [hm] at hres; exact hres.elim
+      | ok m'' =>
+        rw [hm] at hres
+        refine ⟨m'', ?_, hres, by simp [hc]⟩
+        show replay (s.log ++ [mu]) = .ok m''
+        unfold replay at hr ⊢
+        rw [replayG_reset_append, hr]; exact hm
+    | error e =>
+      exact ⟨m, by simpa using hr, hd, by simp [hc]⟩
+
+theorem volatile_preserves_invV (s : Store) (op : VOp) (h : InvV s) : InvV (s.volatile op).1 := by
+  obtain ⟨m, hr, hd, hc⟩ := h
+  exact ⟨m, hr, hd.trans (volatile_preserves_data s.mem op).symm, hc⟩
+
+/-- a clean restart of a store satisfying `InvV` succeeds, reproduces every simple value and all prefix
+children, keeps the log, and lands in a state satisfying the strong invariant again -/
+theorem reopen_of_invV (s : Store) (h : InvV s) :
+    ∃ s', s.reopen = .ok s' ∧ DataEq s'.mem s.mem ∧ s'.log = s.log ∧ Inv s' := by
+  obtain ⟨m, hr, hd, _⟩ := h
+  refine ⟨{ log := s.log, mem := m, counter := s.log.length + 1 }, ?_, hd, rfl, hr, rfl⟩
+  simp only [Store.reopen, reopenLog, hr]
+
+/-- histories of mutations, lease calls and clean stop/reopen cycles in any order -/
+inductive Step where
+  | mutate (mu : Mutation)
+  | lease (op : VOp)
+  | restart
+
+def runSteps (s : Store) : List Step → Except Err Store
+  | [] => .ok s
+  | .mutate mu :: rest => runSteps (submit s mu).1 rest
+  | .lease op :: rest => runSteps (s.volatile op).1 rest
+  | .restart :: rest =>
+    match s.reopen with
+    | .ok s' => runSteps s' rest
+    | .error e => .error e
+
+theorem runSteps_invV (steps : List Step) (s : Store) (h : InvV s) :
+    ∃ s', runSteps s steps = .ok s' ∧ InvV s' := by
+  induction steps generalizing s with
+  | nil => exact ⟨s, rfl, h⟩
+  | cons st rest ih =>
+    cases st with
+    | mutate mu => exact ih _ (submit_preserves_invV true s mu h)
+    | lease op => exact ih _ (volatile_preserves_invV s op h)
+    | restart =>
+      obtain ⟨s', hs', _, _, hinv⟩ := reopen_of_invV s h
+      simp only [runSteps, hs']
+      exact ih s' (invV_of_inv s' hinv)
+
+/-- **C21 with volatile leases.** After ANY history of mutations, lease calls (Acquire/Renew/Release, never
+logged) and earlier clean restarts, every restart succeeds, and a further clean stop + `aof.New` yields
+exactly the same simple values and prefix children for every key as before the stop. -/
+theorem clean_restart_reproduces_data_with_leases (steps : List Step) :
+    ∃ s s', runSteps Store.init steps = .ok s ∧ s.reopen = .ok s' ∧ DataEq s'.mem s.mem := by
+  obtain ⟨s, hs, hinv⟩ := runSteps_invV steps Store.init (invV_of_inv _ inv_init)
+  obtain ⟨s', hs', hd, _, _⟩ := reopen_of_invV s hinv
+  exact ⟨s, s', hs, hs', hd⟩
+
+
 /-! ### The regression `mut.Reset()` protects against -/
 
 def valAt (r : Except Err Mem) (k : Bytes) : Option Bytes :=
